@@ -174,6 +174,21 @@ fn run_shard(a: Arc<CheckArgs>, mut sh: Shard, mode: &'static str, agg: Arc<Mute
                     st[slot].cpu_at_progress = cpu_seconds(pid);
                     sh.from = run + sh.stride;
                 }
+                "died" => {
+                    // the forked child executing this run died; the worker
+                    // itself goes on with the next run
+                    let run = v["run"].as_u64().unwrap_or(0);
+                    let reason = v["reason"].as_str().unwrap_or("unknown").to_string();
+                    let step = {
+                        let st = states.lock().unwrap();
+                        if st[slot].cur_run == Some(run) { st[slot].cur_step } else { 0 }
+                    };
+                    agg.lock().unwrap().crashes.push((run, step, reason));
+                    let mut st = states.lock().unwrap();
+                    st[slot].cur_run = None;
+                    st[slot].last_progress = real_now();
+                    sh.from = run + sh.stride;
+                }
                 "done" => {
                     finished = true;
                 }
